@@ -43,7 +43,9 @@ def generate(seed, stratum, tier):
   ncancel = rng.randrange(1, 4)
   for _ in range(ncancel):
     # sleep to a multiple of the period (the victim wakes at that very instant) or in between
-    c0.append(['sleep', p * rng.choice([1, 2, 3]) if rng.random() < 0.6 else p * rng.choice([0.5, 1.5, 0.3])])
+    if rng.random() < 0.75:
+      c0.append(['sleep', p * rng.choice([1, 2, 3]) if rng.random() < 0.6 else p * rng.choice([0.5, 1.5, 0.3])])
+    # else: cancel right away - the new source's thread may not even have made its first pass yet
     if rng.random() < 0.5:
       c0.append(['cancel_event', 0, 0, rng.randrange(nsrc + 1), rng.choice(['same', 'same', 'copy', 'int'])])
     else:
